@@ -26,9 +26,10 @@ class FragReturn(Exception):
         self.value = value
 
 
-def run_fragment(body: Sequence[ast.stmt], names: Dict[str, Any], attrs: Optional[Dict[str, Any]] = None, max_steps: int = 20000, funcs: Optional[Dict[str, ast.FunctionDef]] = None, materialise: bool = False, ctors: Optional[Dict[str, Any]] = None) -> Dict[str, Any]:
+def run_fragment(body: Sequence[ast.stmt], names: Dict[str, Any], attrs: Optional[Dict[str, Any]] = None, max_steps: int = 20000, funcs: Optional[Dict[str, ast.FunctionDef]] = None, materialise: bool = False, ctors: Optional[Dict[str, Any]] = None, attrs_live: bool = False) -> Dict[str, Any]:
     env = dict(names)
-    attrs = dict(attrs or {})
+    # attrs_live: stores into attributes are made in the caller's dict (the object state after the fragment)
+    attrs = attrs if (attrs_live and attrs is not None) else dict(attrs or {})
     steps = [0]
     #: names bound to the *same* tensor / list object by a plain `a = b` (or a view of it): a store through one of them
     #: would be visible through the other - the evaluator's values are copies, so such a store is refused
@@ -288,6 +289,14 @@ def run_fragment(body: Sequence[ast.stmt], names: Dict[str, Any], attrs: Optiona
                 if isinstance(st.target, ast.Subscript):
                     load = ast.Subscript(value=st.target.value, slice=st.target.slice, ctx=ast.Load())
                     store_sub(st.target, fold(ast.BinOp(left=load, op=st.op, right=st.value)))
+                    continue
+                if isinstance(st.target, ast.Attribute):
+                    from .astutil import attr_chain as _ac
+
+                    ch_ = _ac(st.target)
+                    if ch_ is None or ch_ not in attrs:
+                        raise Unfoldable("augmented attribute target")
+                    attrs[ch_] = fold(ast.BinOp(left=ast.Attribute(value=st.target.value, attr=st.target.attr, ctx=ast.Load()), op=st.op, right=st.value))
                     continue
                 if not isinstance(st.target, ast.Name):
                     raise Unfoldable("augmented target")
